@@ -178,7 +178,12 @@ pub fn worker(args: &[String]) -> i32 {
     let mut cur = std::fs::File::create(&cur_path).unwrap();
     let state_cap = 2_000_000usize;
     for part in &plan.parts {
-        let runs = if tier == "thorough" { part.thorough } else { part.quick };
+        // "geo": the additional compile-time geometries of the thorough tier
+        let runs = match tier.as_str() {
+            "thorough" => part.thorough,
+            "geo" => (part.quick * 3).max(part.thorough.min(3000)),
+            _ => part.quick,
+        };
         let mut fam_samples = 0;
         let mut index = shard;
         while index < runs {
@@ -649,7 +654,31 @@ pub fn check(prop: &str, tier: &str) -> i32 {
         .set("violations", violations);
     let evdir = root().join("evidence");
     std::fs::create_dir_all(&evdir).unwrap();
-    std::fs::write(evdir.join(format!("{prop}.json")), ev.to_pretty()).unwrap();
+    let evfile = evdir.join(format!("{prop}.json"));
+    if let Ok(geo) = std::env::var("LLSIM_GEOMETRY") {
+        // an additional geometry build of the thorough tier: merge into the existing evidence
+        let mut base = std::fs::read_to_string(&evfile).ok().and_then(|s| J::parse(&s).ok()).unwrap_or(ev.clone());
+        let sub = J::obj()
+            .set("geometry", format!("{geo}: TREE_HUGE={} HUGE_ORDER={} TREE_FRAMES={}", llfree::TREE_HUGE, llfree::HUGE_ORDER, llfree::TREE_FRAMES))
+            .set("evaluations", ev.get("coverage").map(|c| c.gu("evaluations")).unwrap_or(0))
+            .set("distinct_nontrivial", ev.get("coverage").map(|c| c.gu("distinct_nontrivial")).unwrap_or(0))
+            .set("violations", violations)
+            .set("wall_s", wall)
+            .set("faults_fired", ev.get("coverage").and_then(|c| c.get("faults_fired")).cloned().unwrap_or(J::Null));
+        let total_v = base.gu("violations") + violations;
+        let total_w = base.get("wall_s").and_then(J::f).unwrap_or(0.0) + wall;
+        if let J::Obj(m) = &mut base {
+            if let Some(J::Obj(c)) = m.get_mut("coverage") {
+                let g = c.entry("other_geometries".to_string()).or_insert(J::obj());
+                g.put(&geo, sub);
+            }
+            m.insert("violations".into(), J::from(total_v));
+            m.insert("wall_s".into(), J::from(total_w));
+        }
+        std::fs::write(&evfile, base.to_pretty()).unwrap();
+    } else {
+        std::fs::write(&evfile, ev.to_pretty()).unwrap();
+    }
     let _ = std::fs::remove_dir_all(&tmp);
     println!(
         "{prop} {tier}: {evaluations} runs, {} distinct non-trivial, {} states, {steps} steps, {wall:.1}s, violations={violations}, known={}",
